@@ -138,6 +138,17 @@ def check(ctx):
                 if rc == 0 or rc is None:
                     cm.violation(ctx, "failing-input", {"what": "gofasta %s with stdout on /dev/full %s" % (" ".join(cmd[:3]), "exits 0" if rc == 0 else "hangs"),
                                                         "argv": cmd, "files": {os.path.basename(f): open(f).read() for f in (mp, ap, rp, sp, ap2)}})
+                # the same destination named through the command's own output option (the cmd layer opens, defers the close
+                # and hands the error back)
+                if cmd[:2] == ["sam", "toPairAlign"]:
+                    continue                      # -o names a directory there
+                outopt = "--fasta-out" if cmd[:2] == ["sam", "toMultiAlign"] else "-o"
+                r2 = cm.run_binary(binp, cmd + [outopt, "/dev/full"], timeout=20)
+                bin_runs += 1
+                if r2[0] in ("ok", "hang"):
+                    cm.violation(ctx, "failing-input", {"what": "gofasta %s %s /dev/full %s" % (" ".join(cmd[:3]), outopt, "exits 0" if r2[0] == "ok" else "hangs"),
+                                                        "argv": cmd + [outopt, "/dev/full"],
+                                                        "files": {os.path.basename(f): open(f).read() for f in (mp, ap, rp, sp, ap2)}})
         finally:
             import shutil
             shutil.rmtree(tmp, ignore_errors=True)
